@@ -3,8 +3,6 @@ From Coq Require Import List Arith Bool Lia Sorted.
 From Parmcb Require Import GF2Model.
 Import ListNotations.
 
-Definition sorted (v : vec) : Prop := StronglySorted lt v.
-
 Lemma sorted_nil : sorted []. Proof. constructor. Qed.
 Lemma sorted_single x : sorted [x]. Proof. repeat constructor. Qed.
 
